@@ -294,6 +294,20 @@ impl Session {
                 self.cur_failed = true;
                 let c = self.cur.as_ref().unwrap().clone();
                 let step = c.gen.len() - 1;
+                // crash safety: a later panic of the HARNESS itself (rc 101) must not lose this finding — `./check` turns the
+                // partial file into an (unshrunk) replay when the run did not reach `finish`
+                if self.args.replay.is_none() && self.findings.len() < 8 {
+                    let known = load_known(&self.args.prop);
+                    if !known.iter().any(|k| k.status == "finding" && key_matches(&k.key, &key)) {
+                        let rec = serde_json::json!({"property": self.args.prop, "kind": "monitor", "key": key, "what": what, "seed": self.args.seed,
+                            "failing_step": step, "ops": c.gen, "model_in": c.model_in, "impl_out": c.exp, "note": "written before the harness crashed; not shrunk"});
+                        std::fs::create_dir_all(&self.args.out).ok();
+                        if let Ok(mut f) = std::fs::OpenOptions::new().create(true).append(true).open(self.args.out.join("partial_findings.jsonl")) {
+                            use std::io::Write;
+                            let _ = writeln!(f, "{}", rec);
+                        }
+                    }
+                }
                 self.findings.push(Finding { key, what, case: c, step });
             }
         }
